@@ -118,6 +118,7 @@ def run(facts, chk, tier, only=None):
     chk.guard('C18.sub', 'C18.sub:run', lambda: subs.check(facts, chk, 'C18.sub'))
     from . import lo_e2e
     chk.guard('C18.e2e', 'C18.e2e:run', lambda: lo_e2e.check_indels(facts, chk, 'C18.e2e', tier))
+    chk.guard('C18.e2e', 'C18.e2e:run-wide', lambda: lo_e2e.check_wide(facts, chk, 'C18.e2e', tier, 'indel'))        # thorough tier only
     from . import cli_more
     chk.guard('C18.cli', 'C18.cli:run0', lambda: cli_more.check_lo_arm(facts, chk, 'C18.cli', tier))
     chk.guard('C18.leaf', 'C18.leaf:run', lambda: check_graph_leaves(facts, chk, 'C18.leaf'))
